@@ -177,21 +177,43 @@ ASSUME \A w \in BOOLEAN : \A x \in FixedInsts :
 
 (* XSD 1.1 type alternatives: the first alternative whose test holds selects the *)
 (* governing type.  Declared type T (content: nothing); TA, TB, TC extend it    *)
-(* with one required child x, y, z.  alts is a sequence of <<test, type>> with  *)
-(* test "a" / "b" (@k = 'a' / 'b') or "default".                                *)
+(* with one required child x, y, z.  alts is a sequence of <<test, type>>.  The *)
+(* tests see the element's OWN attributes plus the INHERITED ones (attribute j  *)
+(* is declared inheritable on the parent) that an own attribute of the same     *)
+(* name does not override (XSD 1.1 Part 1, 3.12.4 / 3.3.5.6):                    *)
+(*   "a" / "b"   @k = 'a' / 'b'        (own attribute k)                         *)
+(*   "ja" / "jb" @j = 'a' / 'b'        (own j, else the parent's j)             *)
+(*   "nj"        not(@j)                                                        *)
+(*   "default"   no test                                                        *)
 AltLists == {<<<<"a", "TA">>, <<"b", "TB">>, <<"default", "TC">>>>,
              <<<<"b", "TB">>, <<"a", "TA">>, <<"default", "TC">>>>,
              <<<<"a", "TA">>, <<"a", "TB">>, <<"default", "TC">>>>,
              <<<<"a", "TA">>, <<"b", "TB">>>>,
-             <<<<"b", "TA">>, <<"default", "TB">>>>}
-AltInsts == [k : {"absent", "a", "b", "z"}, child : {"none", "x", "y", "z"}]
+             <<<<"b", "TA">>, <<"default", "TB">>>>,
+             <<<<"ja", "TA">>, <<"b", "TB">>, <<"default", "TC">>>>,
+             <<<<"jb", "TA">>, <<"a", "TB">>>>,
+             <<<<"a", "TA">>, <<"ja", "TB">>, <<"jb", "TC">>>>,
+             <<<<"nj", "TA">>, <<"a", "TB">>>>,
+             <<<<"a", "TA">>, <<"nj", "TB">>, <<"default", "TC">>>>,
+             <<<<"ja", "TA">>, <<"jb", "TB">>, <<"nj", "TC">>>>}
+AltInsts == [k : {"absent", "a", "b", "z"}, j : {"absent", "a", "b"}, oj : {"absent", "a", "b"},
+             child : {"none", "x", "y", "z"}]
+EffJ(i) == IF i.oj # "absent" THEN i.oj ELSE i.j
+Holds(test, i) == CASE test = "default" -> TRUE
+                    [] test \in {"a", "b"} -> i.k = test
+                    [] test = "ja" -> EffJ(i) = "a"
+                    [] test = "jb" -> EffJ(i) = "b"
+                    [] test = "nj" -> EffJ(i) = "absent"
 RECURSIVE Select(_, _)
-Select(alts, k) == IF alts = <<>> THEN "T"
-                   ELSE IF Head(alts)[1] = "default" \/ Head(alts)[1] = k THEN Head(alts)[2]
-                   ELSE Select(Tail(alts), k)
+Select(alts, i) == IF alts = <<>> THEN "T"
+                   ELSE IF Holds(Head(alts)[1], i) THEN Head(alts)[2]
+                   ELSE Select(Tail(alts), i)
 ChildOf(t) == CASE t = "T" -> "none" [] t = "TA" -> "x" [] t = "TB" -> "y" [] t = "TC" -> "z"
-AltValid(alts, i) == i.child = ChildOf(Select(alts, i.k))
-ASSUME \A al \in AltLists : \A k \in {"absent", "a", "b", "z"} : Select(al, k) \in {"T", "TA", "TB", "TC"}
+AltValid(alts, i) == i.child = ChildOf(Select(alts, i))
+ASSUME \A al \in AltLists : \A i \in AltInsts : Select(al, i) \in {"T", "TA", "TB", "TC"}
+(* exactly one child name is valid for every instance, whatever the list *)
+ASSUME \A al \in AltLists : \A i \in AltInsts :
+         Cardinality({c \in {"none", "x", "y", "z"} : AltValid(al, [i EXCEPT !.child = c])}) = 1
 
 ------------------------------------------------------------------------------
 (* enumeration as a (stateless) state space: one initial state per case       *)
@@ -212,7 +234,7 @@ Emit == CASE Mode = "xsitype" ->
                PrintT(ToJson([cfg |-> cfg, inst |-> inst, types |-> TypesOf(AsSchema(cfg)),
                               valid |-> SubstValid(cfg, inst)]))
           [] Mode = "simple" -> PrintT(ToJson([cfg |-> cfg, inst |-> inst, valid |-> SimpleValid(cfg, inst)]))
-          [] Mode = "alt" -> PrintT(ToJson([cfg |-> cfg, inst |-> inst, sel |-> Select(cfg, inst.k),
+          [] Mode = "alt" -> PrintT(ToJson([cfg |-> cfg, inst |-> inst, sel |-> Select(cfg, inst),
                                             valid |-> AltValid(cfg, inst)]))
           [] Mode = "fixedws" -> PrintT(ToJson([cfg |-> cfg, inst |-> inst, valid |-> FixedValid(cfg, inst)]))
 =============================================================================
